@@ -336,6 +336,8 @@ def r74(facts, res):
     c05.r52(facts, res, 'R7.4')
     import c06
     c06.r610(facts, res, 'R7.6')       # a Shift is recorded only for a move that consumed a lexeme: the three trailing shifts are three real lexemes
+    import c05
+    c05.r56(facts, res, 'R7.7')        # the replay on the real stacks moves as far as the sequence says: else the driver re-reports inside the repaired stretch
 
 
 def r75(facts, res):
